@@ -9,6 +9,7 @@ Driver ops for the multiword Montgomery ring and M128 (C07). Request lines:
   zn_redc_large n w0,w1,...     -> zm                      (x given as a word list)
   zn_from_int n x               -> zm
   zn_to_int n xm                -> x
+  zn_from_to n x                -> to_int(from_int(x))
   zn_inv n xm                   -> none | some zm
   zn_gcd n xm                   -> d
   mint_lt xs ns sz              -> true|false              (xs, ns word lists)
@@ -66,6 +67,9 @@ def handleZmodN : Handler
   | ["zn_to_int", n, x] => do
     let n ← parseNat n; let x ← parseNat x
     some (withCtx n fun c => showON (toInt c (ofNat 8 x)))
+  | ["zn_from_to", n, x] => do
+    let n ← parseNat n; let x ← parseNat x
+    some (withCtx n fun c => showON ((fromInt c x).bind (toInt c)))
   | ["zn_inv", n, x] => do
     let n ← parseNat n; let x ← parseNat x
     some (withCtx n fun c =>
